@@ -246,6 +246,47 @@ def deterministic_oracles(ctx, rng):
                             'first_rows': [c_[0].tolist() for c_ in a]},
                            'call k of a seeded model is a function of (parameters, seed, k) only and differs from the other calls',
                            f'{fam}.sample:repeated-calls-not-an-advancing-private-stream')
+    # (vi) batch sizes at the edge: n = 0 gives an empty (0, 2) float array, n = 1 a (1, 2) array; and a model handed
+    # over by the factory / from_dict samples exactly like the directly constructed one
+    from copulas.bivariate import Bivariate
+    for fam in B.FAMS:
+        th = B.theta_grid(fam)[3] if fam != 'gumbel' else 2.0
+        tau = B.tau_of(fam, th)
+        direct = B.make(fam, th, tau)
+        routes = {'direct': direct}
+        try:
+            f1 = Bivariate(copula_type=fam)
+            f1.theta, f1.tau = th, tau
+            routes['factory'] = f1
+            routes['from_dict'] = Bivariate.from_dict(direct.to_dict())
+        except Exception as e:  # noqa
+            found += 1
+            ctx.fail_input(f'{fam}.sample', {'theta': th, 'route': 'factory/from_dict'}, f'{vc.exc_kind(e)}: {e}'[:200],
+                           'the factory and from_dict hand over a usable model', f'{fam}.sample:route-raises')
+        outs = {}
+        for name, m in routes.items():
+            for n in (0, 1, 3):
+                checked += 1
+                try:
+                    m.set_random_state(77)
+                    out = np.asarray(m.sample(n))
+                except Exception as e:  # noqa
+                    found += 1
+                    ctx.fail_input(f'{fam}.sample', {'theta': th, 'route': name, 'n': n}, f'{vc.exc_kind(e)}: {e}'[:200],
+                                   'sample(n) returns an (n, 2) array for every n >= 0', f'{fam}.sample:shape')
+                    continue
+                if out.shape != (n, 2) or out.dtype != np.float64:
+                    found += 1
+                    ctx.fail_input(f'{fam}.sample', {'theta': th, 'route': name, 'n': n}, {'shape': list(out.shape), 'dtype': str(out.dtype)},
+                                   'sample(n) returns an (n, 2) float64 array for every n >= 0', f'{fam}.sample:shape')
+                outs[(name, n)] = out
+        for name in routes:
+            if name != 'direct' and ('direct', 3) in outs and (name, 3) in outs and not np.array_equal(outs[('direct', 3)], outs[(name, 3)]):
+                found += 1
+                ctx.fail_input(f'{fam}.sample', {'theta': th, 'route': name, 'n': 3, 'seed': 77},
+                               {'direct': outs[('direct', 3)].tolist(), name: outs[(name, 3)].tolist()},
+                               'a model with the same parameters and seed samples the same rows whatever route built it',
+                               f'{fam}.sample:depends-on-construction-route')
     return checked, found
 
 
